@@ -82,11 +82,37 @@ fn check(base: &Base, base_wire: &[u8], corrupt: &[u8], kind: &'static str, clas
     }
 }
 
+/// The same oracle through the stream entry point: `Frame::read` over a fragmenting reader (deliveries that split
+/// hex pairs included) must also fail or yield exactly the original frame.
+fn check_read(base: &Base, base_wire: &[u8], corrupt: &[u8], rng: &mut Rng, rep: &mut Report) {
+    use crate::doubles::FragReader;
+    let n = corrupt.len();
+    let density = 1 + rng.below(3);
+    let boundaries: Vec<usize> = (1..n).filter(|_| rng.chance(density, 4)).collect();
+    let mut reader = FragReader::new(corrupt.to_vec(), boundaries.clone(), vec![]);
+    let r = catch(|| Frame::read(&mut reader).map(|f| (f.address().0, f.message_type().0, f.data().to_vec())));
+    rep.count("corruptions_also_read_from_a_stream");
+    let obs = match r {
+        Ok(Ok((a, t, d))) if a == base.addr && t == base.ty && d == base.data => return,
+        Ok(Ok((a, t, d))) => format!("Ok({:04X}:{:02X}:{})", a, t, hex(&d)),
+        Ok(Err(_)) => return,
+        Err(p) => format!("panic {} at {}", p.msg, short_loc(&p.loc)),
+    };
+    rep.violation(
+        MON,
+        "accepted_as_different_frame_via_read",
+        &format!("{}>{}|{:?}", hex(base_wire), hex(corrupt), boundaries),
+        format!("[{}] -> [{}] read from a stream with deliveries split at {:?}: decoded as {}", show_bytes(base_wire), show_bytes(corrupt), boundaries, obs),
+        J::obj(vec![("workload", J::s("corruption_via_read")), ("base_wire", J::hex(base_wire)), ("corrupt_wire", J::hex(corrupt)), ("boundaries", J::s(format!("{:?}", boundaries))), ("observed", J::s(obs.clone()))]),
+    );
+}
+
 fn all_corruptions(base: &Base, rep: &mut Report) {
     for crlf in [false, true] {
         let wire = if crlf { refs::enc_crlf(base.addr, base.ty, &base.data) } else { refs::enc(base.addr, base.ty, &base.data) };
         let n = wire.len();
         let mut buf = wire.clone();
+        let mut srng = Rng::new(fnv(&wire) ^ 0x5EED);
         // every position x every replacement byte
         for pos in 0..n {
             let class = field_class(pos, n, crlf);
@@ -94,6 +120,11 @@ fn all_corruptions(base: &Base, rep: &mut Report) {
             for v in 0..=255u8 {
                 buf[pos] = v;
                 check(base, &wire, &buf, "substitution", class, rep);
+                // hex-digit substitutions (the ones that can survive the text check) also through the stream entry
+                // point, each with its own random fragmentation; short frames only (cost)
+                if n <= 64 && v.is_ascii_hexdigit() {
+                    check_read(base, &wire, &buf, &mut srng, rep);
+                }
             }
             buf[pos] = orig;
         }
@@ -338,6 +369,7 @@ pub fn run(ctx: &Ctx) -> Outcome {
     floors.push(floor("wrong-length strings generated", report.get("wrong_length_strings") > 1000, report.get("wrong_length_strings")));
     floors.push(floor("over-long strings whose length field is right modulo 256", report.get("overlong_wrong_length_strings") > 100, report.get("overlong_wrong_length_strings")));
     floors.push(floor("wrong-checksum strings with every delta 1..=255", report.set_len("checksum_deltas") == 255, report.set_len("checksum_deltas")));
+    floors.push(floor("corruptions also decoded through Frame::read with split deliveries", report.get("corruptions_also_read_from_a_stream") > 10_000, report.get("corruptions_also_read_from_a_stream")));
     floors.push(floor("nested base frames (a suffix is itself a valid frame)", report.get("nested_base_frames") >= 20, report.get("nested_base_frames")));
     floors.push(floor("base frames of >= 12 distinct lengths incl. 255", report.set_len("base_lengths") >= 12, report.set_len("base_lengths")));
 
